@@ -100,6 +100,8 @@ type mUpload struct {
 	Check    map[int]int64
 	State    string // open, committed, cancelled, failed
 	Explicit bool   // started under a caller-chosen ID
+	// Committed is the content the session held when it was first committed successfully.
+	Committed []byte
 }
 
 type Model struct {
@@ -385,6 +387,8 @@ func (m *Model) Predict(u *universe, op Op) Pred {
 			return Pred{Ok: mustFail, Why: "immutable tags"}
 		}
 		return Pred{Ok: mustOK, Why: "tag present"}
+	case "Reads":
+		return Pred{Ok: mustOK, Why: "reading changes nothing"}
 	case "Start":
 		if !validRepo {
 			return Pred{Ok: mustFail, Why: "invalid repository name"}
@@ -516,6 +520,14 @@ func (m *Model) Advance(u *universe, op Op, ok bool) {
 		}
 	case "Commit":
 		up := m.Uploads[op.H]
+		if ok && op.Off == "recommit" {
+			// the digest of the first commit offered again: whatever the registry answers, that digest keeps
+			// naming the bytes it named (nothing changes in the model)
+			return
+		}
+		if ok && up.State == "open" {
+			up.Committed = append([]byte(nil), up.Buf...)
+		}
 		if ok {
 			if up.State == "open" || up.State == "committed" {
 				m.repo(up.Repo, true).Blobs[sha256Digest(up.Buf)] = &mBlob{Data: up.Buf, MT: mtOctet}
